@@ -8,7 +8,7 @@ CONSTANTS
   NDg = 0
   DgCap = 1
   AllowReset = FALSE
-  AllowStop = TRUE
+  AllowStop = FALSE
   AllowLoss = FALSE
   Extra = {}
   CloseKinds = {"localA", "localB"}
